@@ -1,5 +1,265 @@
 package main
 
-import "os"
+import (
+	"crypto/tls"
+	"crypto/x509"
+	"encoding/json"
+	"fmt"
+	"io"
+	"os"
+	"strconv"
+	"sync"
+	"time"
 
-func vmain() { os.Exit(0) }
+	hclog "github.com/hashicorp/go-hclog"
+	plugin "github.com/hashicorp/go-plugin"
+	"google.golang.org/grpc"
+	"verif/harness/vp"
+)
+
+// Config is read from $VP_CONFIG (JSON).
+type Config struct {
+	CookieKey   string                `json:"cookie_key"`
+	CookieValue string                `json:"cookie_value"`
+	Version     uint                  `json:"version"`   // legacy ProtocolVersion
+	Legacy      *vp.SetSpec           `json:"legacy"`    // legacy Plugins (nil = none)
+	Versioned   map[string]vp.SetSpec `json:"versioned"` // VersionedPlugins
+	GRPCServer  bool                  `json:"grpc_server"`
+	TLSCert     string                `json:"tls_cert"` // PEM files for a TLSProvider (static TLS)
+	TLSKey      string                `json:"tls_key"`
+	TLSClientCA string                `json:"tls_client_ca"`
+	// behaviours
+	CrashPoint   string `json:"crash_point"`   // exit(3) when this named point is reached
+	PartialLine  string `json:"partial_line"`  // print this (no newline) and exit instead of serving
+	PreOutput    string `json:"pre_output"`    // written to real stdout before Serve
+	Shutdown     string `json:"shutdown"`      // "" exit at once | "delay" | "ignore"
+	ShutdownMs   int    `json:"shutdown_ms"`   // delay before exit for "delay"
+	Marker       string `json:"marker"`        // file written by the deferred cleanup
+	EarlyStdout  []byte `json:"early_stdout"`  // written to os.Stdout right after Serve swapped it (before the host attaches)
+	EarlyStderr  []byte `json:"early_stderr"`
+	NoLogger     bool   `json:"no_logger"`
+}
+
+var (
+	kvMu sync.Mutex
+	kv   = map[string]string{}
+	cfg  Config
+)
+
+func crashIf(point string) {
+	if cfg.CrashPoint != "" && cfg.CrashPoint == point {
+		os.Exit(3)
+	}
+}
+
+func handler(tag string) vp.Handler {
+	return func(r vp.Req, mux *plugin.MuxBroker, gb *plugin.GRPCBroker) vp.Resp {
+		switch r.Op {
+		case "tag":
+			return vp.Resp{S: tag}
+		case "pid":
+			return vp.Resp{N: os.Getpid()}
+		case "echo":
+			return vp.Resp{Data: r.Data}
+		case "big":
+			return vp.Resp{Data: make([]byte, r.N)}
+		case "set":
+			kvMu.Lock()
+			kv[r.K] = r.V
+			kvMu.Unlock()
+			return vp.Resp{}
+		case "get":
+			kvMu.Lock()
+			v := kv[r.K]
+			kvMu.Unlock()
+			return vp.Resp{S: v}
+		case "write":
+			w := os.Stdout
+			if r.K == "stderr" {
+				w = os.Stderr
+			}
+			n, err := w.Write(r.Data)
+			if err != nil {
+				return vp.Resp{N: n, Err: err.Error()}
+			}
+			return vp.Resp{N: n}
+		case "sleep":
+			time.Sleep(time.Duration(r.N) * time.Millisecond)
+			return vp.Resp{}
+		case "exit":
+			os.Exit(r.N)
+		case "crash-in-call":
+			crashIf("in-call")
+			os.Exit(3)
+		case "stream-chunk":
+			if r.N == 1 {
+				crashIf("in-stream")
+			}
+			time.Sleep(5 * time.Millisecond)
+			return vp.Resp{N: r.N}
+		case "accept":
+			// the plugin accepts a brokered connection and serves "who" on it; returns the id
+			return pluginAccept(mux, gb, r)
+		case "dial":
+			// the plugin dials an id the host accepted and asks who answers
+			return pluginDial(mux, gb, r)
+		case "nextid":
+			if mux != nil {
+				return vp.Resp{ID: mux.NextId()}
+			}
+			return vp.Resp{ID: gb.NextId()}
+		case "who":
+			return vp.Resp{S: tag}
+		}
+		return vp.Resp{Err: "unknown op " + r.Op}
+	}
+}
+
+func whoHandler(id uint32) vp.Handler {
+	return func(r vp.Req, mux *plugin.MuxBroker, gb *plugin.GRPCBroker) vp.Resp {
+		switch r.Op {
+		case "who":
+			return vp.Resp{ID: id, S: "plugin-served"}
+		case "echo":
+			return vp.Resp{Data: r.Data}
+		}
+		return vp.Resp{Err: "unknown op"}
+	}
+}
+
+func pluginAccept(mux *plugin.MuxBroker, gb *plugin.GRPCBroker, r vp.Req) vp.Resp {
+	if mux != nil {
+		id := r.ID
+		if id == 0 {
+			id = mux.NextId()
+		}
+		if r.K == "crash" {
+			go func() { time.Sleep(time.Duration(r.N) * time.Millisecond); os.Exit(3) }()
+			return vp.Resp{ID: id}
+		}
+		go func() {
+			if r.N > 0 {
+				time.Sleep(time.Duration(r.N) * time.Millisecond)
+			}
+			mux.AcceptAndServe(id, vp.NetService(whoHandler(id), mux))
+		}()
+		return vp.Resp{ID: id}
+	}
+	id := r.ID
+	if id == 0 {
+		id = gb.NextId()
+	}
+	if r.K == "crash" {
+		go func() { time.Sleep(time.Duration(r.N) * time.Millisecond); os.Exit(3) }()
+		return vp.Resp{ID: id}
+	}
+	go func() {
+		if r.N > 0 {
+			time.Sleep(time.Duration(r.N) * time.Millisecond)
+		}
+		gb.AcceptAndServe(id, func(opts []grpc.ServerOption) *grpc.Server {
+			s := grpc.NewServer(opts...)
+			vp.Register(s, whoHandler(id), gb)
+			return s
+		})
+	}()
+	return vp.Resp{ID: id}
+}
+
+func pluginDial(mux *plugin.MuxBroker, gb *plugin.GRPCBroker, r vp.Req) vp.Resp {
+	if r.N > 0 {
+		time.Sleep(time.Duration(r.N) * time.Millisecond)
+	}
+	if mux != nil {
+		conn, err := mux.Dial(r.ID)
+		if err != nil {
+			return vp.Resp{Err: "dial: " + err.Error()}
+		}
+		defer conn.Close()
+		c := vp.NewNetCaller(newRPCClient(conn), mux)
+		out, err := c.Call(vp.Req{Op: "who"})
+		if err != nil {
+			return vp.Resp{Err: "call: " + err.Error()}
+		}
+		return vp.Resp{ID: out.ID, S: out.S}
+	}
+	cc, err := gb.Dial(r.ID)
+	if err != nil {
+		return vp.Resp{Err: "dial: " + err.Error()}
+	}
+	defer cc.Close()
+	out, err := vp.NewGRPCCaller(cc, gb).Call(vp.Req{Op: "who"})
+	if err != nil {
+		return vp.Resp{Err: "call: " + err.Error()}
+	}
+	return vp.Resp{ID: out.ID, S: out.S}
+}
+
+func vmain() {
+	if err := json.Unmarshal([]byte(os.Getenv("VP_CONFIG")), &cfg); err != nil {
+		fmt.Fprintln(os.Stderr, "vplugin: bad VP_CONFIG:", err)
+		os.Exit(2)
+	}
+	if cfg.Marker != "" {
+		defer func() { os.WriteFile(cfg.Marker, []byte("clean-exit"), 0o644) }()
+	}
+	crashIf("before-output")
+	if cfg.PartialLine != "" {
+		io.WriteString(os.Stdout, cfg.PartialLine)
+		os.Stdout.Sync()
+		os.Exit(3)
+	}
+	if cfg.PreOutput != "" {
+		io.WriteString(os.Stdout, cfg.PreOutput)
+	}
+	sc := &plugin.ServeConfig{
+		HandshakeConfig: plugin.HandshakeConfig{ProtocolVersion: cfg.Version, MagicCookieKey: cfg.CookieKey, MagicCookieValue: cfg.CookieValue},
+	}
+	if cfg.Legacy != nil {
+		sc.Plugins = vp.MakeSet(*cfg.Legacy, handler(cfg.Legacy.Tag))
+	}
+	if cfg.Versioned != nil {
+		sc.VersionedPlugins = map[int]plugin.PluginSet{}
+		for k, s := range cfg.Versioned {
+			v, _ := strconv.Atoi(k)
+			sc.VersionedPlugins[v] = vp.MakeSet(s, handler(s.Tag))
+		}
+	}
+	if cfg.GRPCServer {
+		sc.GRPCServer = plugin.DefaultGRPCServer
+	}
+	if cfg.TLSCert != "" {
+		sc.TLSProvider = func() (*tls.Config, error) {
+			cert, err := tls.LoadX509KeyPair(cfg.TLSCert, cfg.TLSKey)
+			if err != nil {
+				return nil, err
+			}
+			c := &tls.Config{Certificates: []tls.Certificate{cert}, MinVersion: tls.VersionTLS12}
+			if cfg.TLSClientCA != "" {
+				pem, err := os.ReadFile(cfg.TLSClientCA)
+				if err != nil {
+					return nil, err
+				}
+				pool := x509.NewCertPool()
+				pool.AppendCertsFromPEM(pem)
+				c.ClientCAs = pool
+				c.ClientAuth = tls.RequireAndVerifyClientCert
+			}
+			return c, nil
+		}
+	}
+	if !cfg.NoLogger {
+		sc.Logger = hclog.New(&hclog.LoggerOptions{Level: hclog.Error, Output: os.Stderr, JSONFormat: true})
+	}
+	installHooks()
+	plugin.Serve(sc)
+	// Serve returned: graceful shutdown requested
+	switch cfg.Shutdown {
+	case "delay":
+		time.Sleep(time.Duration(cfg.ShutdownMs) * time.Millisecond)
+	case "ignore":
+		for {
+			time.Sleep(time.Hour)
+		}
+	}
+}
